@@ -10,6 +10,7 @@ deadlock.  NOT expressible here: kernel pipe semantics, scheduler fairness, that
 the concurrent discipline — tied by real commands under a deadline on every run.
 -/
 import InToto.Proofs.Pipes
+import InToto.Proofs.PipesMulti
 
 namespace InToto.C14
 open InToto.Pipes InToto.PipesProofs
@@ -69,5 +70,86 @@ theorem sequential_drain_can_deadlock :
 theorem exit_code_table :
     exitCode .success = 0 ∧ (∀ n, exitCode (.exit n) = n) ∧ exitCode .signaled = -1 ∧ exitCode .other = -1 := by
   simp [exitCode]
+
+/-! ### commands that leave descendants behind (model: InToto/Model/PipesMulti.lean, several writers
+share the two pipes; writer 0 is the command itself, the others are descendants that inherited its
+stdout/stderr and keep them open after the command has exited) -/
+
+/-- C14 (descendants, complete capture and status): a command that leaves descendants behind which
+    keep its output streams open: once the call has returned, EVERY holder has closed its end (all
+    writers have exited, none was lost or added); the caller then has every byte ALL of them wrote,
+    on stdout and on stderr; and the recorded status is the command's own (`code`, recorded when
+    writer 0 exited — not a descendant's) -/
+theorem descendants_returned_means_complete (d : Discipline) (cap code : Nat)
+    (progs : List (List (Stream × Nat))) (hne : progs ≠ []) (st : PipesMulti.MState)
+    (hr : PipesMulti.Reachable d cap code progs st) (hf : PipesMulti.final st = true) :
+    st.outGot = PipesMulti.totalBytes .out progs ∧ st.errGot = PipesMulti.totalBytes .err progs ∧
+    (∀ w ∈ st.writers, w.exited = true) ∧ st.writers.length = progs.length ∧ st.status = some code :=
+  PipesMultiProofs.multi_returned_means_complete d cap code progs hne st hr hf
+
+/-- C14 (descendants, never hangs on volume): under concurrent draining, with any pipe capacity > 0,
+    no reachable state short of the return is stuck — however many processes hold the streams,
+    whatever each of them writes to either stream, and however their steps interleave with the
+    parent's.  (The call lasts as long as the longest-living holder; it is never blocked FOREVER.) -/
+theorem descendants_concurrent_drain_never_stuck (cap code : Nat) (hc : 0 < cap)
+    (progs : List (List (Stream × Nat))) (st : PipesMulti.MState)
+    (hr : PipesMulti.Reachable .conc cap code progs st) (hf : PipesMulti.final st = false) :
+    ∃ st', PipesMulti.Step .conc cap code st st' :=
+  PipesMultiProofs.multi_concurrent_never_stuck cap code hc progs st hr hf
+
+/-- C14 (descendants, every run ends): every step of the command, of a descendant or of the parent
+    strictly decreases a natural-number measure, so every run is finite -/
+theorem descendants_every_run_is_finite (d : Discipline) (cap code : Nat) (st st' : PipesMulti.MState)
+    (hs : PipesMulti.Step d cap code st st') :
+    PipesMultiProofs.measure st' < PipesMultiProofs.measure st :=
+  PipesMultiProofs.multi_every_run_is_finite d cap code st st' hs
+
+/-- C14 (descendants, when the call returns): the call returns only after EVERY holder of the
+    streams has closed its end — the command's own exit is not enough -/
+theorem returns_only_after_every_holder_closed (d : Discipline) (cap code : Nat)
+    (progs : List (List (Stream × Nat))) (st : PipesMulti.MState)
+    (hr : PipesMulti.Reachable d cap code progs st) (hf : PipesMulti.final st = true) :
+    ∀ w ∈ st.writers, w.exited = true :=
+  PipesMultiProofs.multi_returns_only_after_every_holder_closed d cap code progs st hr hf
+
+/-- C14 (descendants, witness): the command wrote a byte to stdout and exited with status 7 (the
+    status is recorded), the parent has collected the byte; a descendant that will still write to
+    stderr is alive.  This state is reachable, the call has not returned, and the parent cannot move
+    at all (no `waited` step, no EOF): only the descendant can move -/
+theorem a_live_descendant_holds_the_call_open :
+    PipesMulti.Reachable .conc 2 7 [[(.out, 1)], [(.err, 1)]] PipesMultiProofs.heldOpen ∧
+    PipesMultiProofs.heldOpen.writers.head?.map (·.exited) = some true ∧
+    PipesMultiProofs.heldOpen.status = some 7 ∧
+    (∃ w ∈ PipesMultiProofs.heldOpen.writers, w.exited = false) ∧
+    PipesMulti.final PipesMultiProofs.heldOpen = false ∧
+    PipesMulti.parentSteps .conc PipesMultiProofs.heldOpen = [] ∧
+    (∀ st' ∈ PipesMulti.stepsFrom .conc 2 7 PipesMultiProofs.heldOpen, st'.waited = false) ∧
+    PipesMulti.stepsFrom .conc 2 7 PipesMultiProofs.heldOpen ≠ [] :=
+  PipesMultiProofs.descendant_holds_the_call_open
+
+/-- the same witness, its state-local facts evaluated: writer 0 has exited with its status
+    recorded, writer 1 has not, and no successor of the state has `waited` -/
+example :
+    PipesMultiProofs.heldOpen.writers.map (·.exited) = [true, false] ∧
+    PipesMultiProofs.heldOpen.status = some 7 ∧
+    PipesMulti.parentSteps .conc PipesMultiProofs.heldOpen = [] ∧
+    (PipesMulti.stepsFrom .conc 2 7 PipesMultiProofs.heldOpen).all (fun st' => !st'.waited) = true := by
+  decide
+
+/-- C14 (descendants, one writer): with no descendants the several-writers model says what the
+    single-writer model says -/
+theorem no_descendants_agrees_with_single_writer (d d' : Discipline) (cap cap' code : Nat)
+    (prog : List (Stream × Nat)) (st : PipesMulti.MState)
+    (hr : PipesMulti.Reachable d cap code [prog] st) (hf : PipesMulti.final st = true)
+    (st1 : PState) (hr1 : Reach d' cap' (init prog) st1) (hf1 : final st1 = true) :
+    st.outGot = progBytes .out prog ∧ st.errGot = progBytes .err prog ∧
+    st.outGot = st1.outGot ∧ st.errGot = st1.errGot ∧ st.status = some code :=
+  PipesMultiProofs.single_writer_agrees d d' cap cap' code prog st hr hf st1 hr1 hf1
+
+/-- the original discipline deadlocks with descendants even after the command itself has exited -/
+theorem sequential_drain_can_deadlock_after_command_exit :
+    ∃ st, PipesMulti.Reachable .seq 2 0 [[], [(.err, 3)]] st ∧ st.status = some 0 ∧
+      PipesMulti.final st = false ∧ PipesMulti.stepsFrom .seq 2 0 st = [] :=
+  PipesMultiProofs.seq_can_deadlock_after_command_exit
 
 end InToto.C14
